@@ -53,6 +53,8 @@ def get_interp():
         from .interp import Interp
         _INTERP = Interp(REPO)
         _INTERP.get_module('bitstring')
+        from . import loops
+        loops.install(_INTERP)
     return _INTERP
 
 
